@@ -353,7 +353,13 @@ func (w *objectWalk) processCommitTrees(lc *object.Commit) error {
 	}
 
 	var oldTrees []*object.Tree
-	for i := 0; i < lc.NumParents(); i++ {
+	numParents := lc.NumParents()
+	if _, shallow := w.shallows[lc.Hash]; shallow {
+		// Parents of a shallow commit are not part of this repository's
+		// history even when the objects happen to be present.
+		numParents = 0
+	}
+	for i := 0; i < numParents; i++ {
 		parent, err := lc.Parent(i)
 		if err != nil {
 			if errors.Is(err, plumbing.ErrObjectNotFound) {
